@@ -324,7 +324,11 @@ class Probe:
             d0 = snap(list(fn.__defaults__)) if fn.__defaults__ else None
             probe.depth += 1
             try:
-                if probe.identity and not no_rerun and probe.depth == 1 and probe.identity_calls.get(qual, 0) < 2:
+                tkey0 = (qual, tuple(sorted((k_, repr(v_)[:40]) if isinstance(v_, (bool, int, str, list, tuple)) and len(repr(v_)) < 200 else (k_, '')
+                                            for k_, v_ in bound.arguments.items() if k_ != 'self')))
+                if probe.identity and not no_rerun and probe.depth == 1 and (probe.identity_calls.get(qual, 0) < 2 or
+                                                                             (tkey0 not in probe.type_calls and probe.identity_calls.get(qual, 0) < 24)):
+                    # the first two calls of a callable and every call with another combination of option values (up to 24) get the full probe
                     probe.identity_calls[qual] = probe.identity_calls.get(qual, 0) + 1
                     probe.type_calls.add((qual, tuple(sorted((k_, repr(v_)[:40]) if isinstance(v_, (bool, int, str, list, tuple)) and len(repr(v_)) < 200 else (k_, '')
                                                              for k_, v_ in bound.arguments.items() if k_ != 'self'))))
